@@ -9,13 +9,16 @@ ENTRY = {
             "lancero_source.go": {"only": ["launchLanceroReader", "getNextBlock", "ConfigureMixFraction", "distributeData"]},
             "simulated_data_sources.go": {"only": ["StartRun"]},
             "writing_state.go": {}}},
-        "textpatch": [{"file": "lancero_source.go", "old": "ticker := time.NewTicker(ls.readPeriod)", "new": "ticker := vNewTicker(ls.readPeriod)"},
+        "textpatch": [{"file": "simulated_data_sources.go", "old": "time.After(", "new": "vAfter(", "all": True},
+                      {"file": "simulated_data_sources.go", "old": "time.NewTicker(", "new": "vSimTicker(", "all": True},
+                      {"file": "lancero_source.go", "old": "ticker := time.NewTicker(ls.readPeriod)", "new": "ticker := vNewTicker(ls.readPeriod)"},
                       {"file": "abaco.go", "old": "ticker := time.NewTicker(as.readPeriod)", "new": "ticker := vNewTicker(as.readPeriod)"}],
         "quick": T(16, 90), "thorough": T(16, 900),
         "rule": "one execution = one complete interleaving (synchronisation-operation granularity, preemption-bounded, all select alternatives) of the driver threads "
                 "(Start, Stop callers) with the real CoreLoop goroutine and the producer goroutine of a scripted source; oracle: no deadlock, all calls return, final state "
                 "Inactive, writing stopped, no goroutine of the run left, and the same object restarts and delivers; non-trivial = at least one preemption",
         "assumptions": ["Abaco/Lancero scenarios: the packet producer / card is scripted (Lancero: Sample() bypassed, geometry set directly) and the reader's ticker is a seam driven by a clock thread; the time.After alternatives of getNextBlock/readerMainLoop never fire",
+                        "S8: the real TriangleSource / SimPulseSource with time.After / time.NewTicker replaced by channels that are ready three times per execution (the 1 s heartbeat ticker never fires); time.Until / time.Now stay real",
                         "the producer is scripted (it follows the protocol of SimPulseSource: select{abort|tick}, send, close(nextBlock)); real-time tickers of the simulated sources are not explored",
                         "Stop is only called after Start has returned (the RPC layer refuses Stop while no source is active); Start || Start is explored at the source level",
                         "scheduling points are at channel operations, select, close, Lock/Unlock/Wait/Done in Start, CoreLoop, Stop, RunDone*, state accessors and WritingState"],
